@@ -186,7 +186,10 @@ func (r *runner) runPair(g *geom, idx *s2.ShapeIndex, t *tgt, nopts int, wantT b
 		if qi%2 == 0 {
 			r.checkScalar(g, idx, t, q, query, edges, interiors, path)
 		}
-		if wantT && fresh && (t.kind != "index" || q.maxErr == 0) {
+		// the brute-force loop ranges over a Go map of shapes: with MaxResults = 1 and MaxError > 0 the
+		// first acceptable edge wins, which the model (shapes in id order) cannot reproduce for several shapes
+		randomOrder := q.k == 1 && q.maxErr != 0 && len(g.shapes) > 1 && !st.UsedOptimized
+		if wantT && fresh && !randomOrder && (t.kind != "index" || q.maxErr == 0) {
 			if tc := r.modelCase(g, idx, t, q, rs, st); tc != "" {
 				tcases = append(tcases, tc)
 			}
